@@ -4,6 +4,7 @@ import (
 	"fmt"
 	"go/ast"
 	"go/token"
+	"go/types"
 	"math"
 	"math/big"
 	"strings"
@@ -225,6 +226,63 @@ func ruleSeries(c *Ctx) {
 		c.check(strings.Contains(body, "call(uint192.msd2;recv=") && strings.Contains(body, ">K(10))){") && strings.Contains(body, "exp:K(-1)}"),
 			"series.log.reduce", fd, "argument divided by its two leading digits (msd·10^-1) when msd > 10", "decomposed192.log: the argument must be divided by its two leading digits before the atanh series (this bounds |t| by 1/21)", "C16", "C18")
 	}
+	// --- log1p: alternating series x - x^2/2 + x^3/3 ... evaluated on |x|; for negative x every term has the same sign
+	if fd := c.fn("decomposed192.log1p"); fd != nil {
+		ps := paramObjs(p, fd)
+		var loop *ast.ForStmt
+		var cl countLoop
+		ast.Inspect(fd.Body, func(n ast.Node) bool {
+			if f, ok := n.(*ast.ForStmt); ok && loop == nil {
+				if l, ok := p.countingLoop(f); ok && l.step == 1 {
+					loop, cl = f, l
+				}
+			}
+			return true
+		})
+		if loop == nil || len(ps) != 1 {
+			c.undecided("series.log1p", fd, "term loop `for i := 2; i <= N; i++` not found", "C16")
+		} else {
+			iObj := p.objOf(loop.Init.(*ast.AssignStmt).Lhs[0])
+			bad := ""
+			for _, neg := range []bool{false, true} {
+				for i := cl.first; i <= cl.last && bad == ""; i++ {
+					in := newInterp(p)
+					var ops []string
+					for _, m := range []string{"add", "sub", "mul", "quo"} {
+						m := m
+						n := 2
+						if m == "sub" {
+							n = 3
+						}
+						in.intrinsics["decomposed192."+m] = func(in *interp, st *state, call *ast.CallExpr, recv AV, args []AV) ([]AV, bool) {
+							if m == "add" || m == "sub" {
+								ops = append(ops, m)
+							}
+							vs := make([]AV, n)
+							for k := range vs {
+								vs[k] = top
+							}
+							return []AV{&avTuple{vs: vs}}, true
+						}
+					}
+					st := newState()
+					st.vars[iObj] = avInt{i}
+					st.vars[ps[0]] = avBool{neg}
+					in.curFn = append(in.curFn, fd)
+					in.execBlock(loop.Body.List, st)
+					want := "sub"
+					if neg || i%2 == 1 {
+						want = "add"
+					}
+					if in.overflow || len(ops) != 1 || ops[0] != want {
+						bad = fmt.Sprintf("term %d for a %s argument is applied by %v, want [%s]: log(1+x) = x - x^2/2 + x^3/3 - ..., so on |x| the even terms are subtracted for positive x and every term is added for negative x", i, map[bool]string{false: "positive", true: "negative"}[neg], ops, want)
+					}
+				}
+			}
+			c.check(bad == "" && cl.first == 2 && cl.last >= 4, "series.log1p", loop, fmt.Sprintf("terms 2..%d carry the signs of the alternating series for both argument signs (|x| < 1e-10: term 5 is already below 1e-40 relative)", cl.last),
+				"decomposed192.log1p: "+bad, "C16")
+		}
+	}
 	// --- epow / epowm1: Taylor series of e^x, |x| < 1 after splitting off the integer part: 40 terms
 	for _, fn := range []string{"decomposed192.epow", "decomposed192.epowm1"} {
 		fd := c.fn(fn)
@@ -307,6 +365,110 @@ func ruleSeries(c *Ctx) {
 		}
 		c.check(top >= need && first == top-1, "series."+fn, fd, fmt.Sprintf("Horner evaluation of %d terms (%d suffice for remainder <= 1e-36 on |x| <= 1)", top, need),
 			fmt.Sprintf("%s: the exponential series is evaluated to x^%d/%d! (loop starts at %d); %d terms are needed for a remainder below 1e-36 on |x| <= 1 and the loop must continue at N-1", fn, top, top, first, need), "C16", "C18")
+	}
+	// --- Cbrt: Halley iterations from the first guess d·10^-(e - e/3)
+	if fd := c.fn("Cbrt"); fd != nil {
+		var loop *ast.ForStmt
+		var loopIdx int
+		var iters int64 = -1
+		for i, s := range fd.Body.List {
+			if f, ok := s.(*ast.ForStmt); ok && loop == nil {
+				if cl, ok := p.countingLoop(f); ok {
+					loop, loopIdx, iters = f, i, cl.n
+				}
+			}
+		}
+		// decompose's exponent and the digit count
+		var expObj, l10Obj types.Object
+		start := -1
+		for i, s := range fd.Body.List {
+			as, ok := s.(*ast.AssignStmt)
+			if !ok || len(as.Rhs) != 1 {
+				continue
+			}
+			if call, ok := ast.Unparen(as.Rhs[0]).(*ast.CallExpr); ok && p.isPkgFunc(call, "Decimal.decompose") && len(as.Lhs) == 2 {
+				expObj = p.objOf(as.Lhs[1])
+			}
+			if len(as.Lhs) == 1 && as.Tok == token.DEFINE && l10Obj == nil {
+				found := false
+				ast.Inspect(as.Rhs[0], func(n ast.Node) bool {
+					if call, ok := n.(*ast.CallExpr); ok && strings.HasSuffix(p.calleeName(call), ".log10") {
+						found = true
+					}
+					return true
+				})
+				if found {
+					l10Obj = p.objOf(as.Lhs[0])
+					start = i + 1
+				}
+			}
+		}
+		if loop == nil || expObj == nil || l10Obj == nil || start < 0 {
+			c.undecided("series.cbrt", fd, "first guess (exponent split) and the iteration loop not found", "C17")
+		} else {
+			// offset(E) = change of the exponent applied to d to form the first guess, for d = m·10^E, 1 <= m < 10
+			worstLo, worstHi := 1.0, 1.0
+			bad := ""
+			for E := int64(-60); E <= 60 && bad == ""; E++ {
+				for _, L := range []int64{0, 33} {
+					in := newInterp(p)
+					st := newState()
+					st.vars[expObj] = avInt{E - L}
+					st.vars[l10Obj] = avInt{L}
+					in.curFn = append(in.curFn, fd)
+					flows := in.execBlock(fd.Body.List[start:loopIdx], st)
+					if in.overflow || len(flows) != 1 {
+						bad = "the exponent split could not be evaluated"
+						break
+					}
+					got, ok := flows[0].st.vars[expObj].(avInt)
+					if !ok {
+						bad = "the exponent of the first guess is not determined by the operand's exponent and digit count"
+						break
+					}
+					// guess = m·10^(got+L) (coefficient digits L), true root = m^(1/3)·10^(E/3): ratio = m^(2/3)·10^(got+L-E/3)
+					rexp := float64(got.v+L) - float64(E)/3
+					lo, hi := math.Pow(10, rexp), math.Pow(10, rexp+2.0/3)
+					if lo < worstLo {
+						worstLo = lo
+					}
+					if hi > worstHi {
+						worstHi = hi
+					}
+				}
+			}
+			if bad != "" {
+				c.undecided("series.cbrt", fd, bad, "C17")
+			} else {
+				// Halley on x^3 = 1: x -> x(x^3+2)/(2x^3+1), in 400-bit arithmetic, until |x-1| <= 1e-56
+				need := int64(0)
+				for _, r := range []float64{worstLo, worstHi} {
+					x := new(big.Float).SetPrec(400).SetFloat64(r)
+					one := new(big.Float).SetPrec(400).SetInt64(1)
+					two := new(big.Float).SetPrec(400).SetInt64(2)
+					tol := new(big.Float).SetPrec(400)
+					tol.SetString("1e-56")
+					n := int64(0)
+					for ; n < 64; n++ {
+						d := new(big.Float).Sub(x, one)
+						if d.Abs(d).Cmp(tol) <= 0 {
+							break
+						}
+						x3 := new(big.Float).Mul(x, x)
+						x3.Mul(x3, x)
+						num := new(big.Float).Add(x3, two)
+						den := new(big.Float).Mul(two, x3)
+						den.Add(den, one)
+						x.Mul(x, num.Quo(num, den))
+					}
+					if n > need {
+						need = n
+					}
+				}
+				c.check(iters >= need, "series.cbrt", loop, fmt.Sprintf("%d Halley steps; the first guess is within a factor [%.3g, %.3g] of the root, so %d steps reach 1e-56 relative", iters, worstLo, worstHi, need),
+					fmt.Sprintf("Cbrt: %d Halley steps from a first guess that can be off by a factor in [%.3g, %.3g] do not reach the 1e-56 relative accuracy that the 1e-20 ulp margin needs; %d steps are required (the exponent split must leave the guess within 10^(-2/3)..10^(2/3) of the root)", iters, worstLo, worstHi, need), "C17")
+			}
+		}
 	}
 	// --- Sqrt: Heron iterations from a linear first guess
 	if fd := c.fn("Sqrt"); fd != nil {
